@@ -15,7 +15,7 @@ one() {
   if echo "$out" | grep -q "exit=1"; then echo "caught $p"; else echo "NOT-CAUGHT $p :: $out"; fi
 }
 export -f one
-ls mutants/*.patch seeded/*/patch.diff | xargs -P $J -I{} bash -c 'one {}' > /tmp/all_mutants.$$ 2>&1
+ls mutants/*.patch seeded/*/patch.diff | while read p; do case $p in seeded/*) grep -q masked_by_fix $(dirname $p)/meta.json && continue;; esac; echo $p; done | xargs -P $J -I{} bash -c 'one {}' > /tmp/all_mutants.$$ 2>&1
 grep NOT-CAUGHT /tmp/all_mutants.$$
 echo "mutants+seeded run: $(wc -l < /tmp/all_mutants.$$), not caught: $(grep -c NOT-CAUGHT /tmp/all_mutants.$$)"
 rm -f /tmp/all_mutants.$$
